@@ -971,5 +971,5 @@ Proof.
     + constructor; [constructor; [reflexivity | constructor]|].
       constructor; [apply w_leaf_sorted|]. constructor; [|constructor]. cbn [snd].
       constructor; [constructor|]. constructor; [apply w_leaf_sorted | constructor].
-  - unfold tree_unchanged. f_equal.
+  - unfold tree_unchanged. apply f_equal. vm_compute. reflexivity.
 Qed.
